@@ -129,7 +129,7 @@ theorem Tie_C20_observed_snapshot (P : Params) (hidden : List String) (evs : Lis
     (hw : hidden.contains "write" = false) (h : (accept P hidden evs).accepted = true)
     (pre rest : List (Nat × Ev)) (tm : Nat) (es : List LogEntry) (he : evs = pre ++ (tm, Ev.snapshot es) :: rest) :
     es.length ≤ P.logSize ∧
-    ∃ extra, extra.length ≤ 1 ∧ sendsOf es <:+ (traceWrites pre).map (·.2) ++ extra := by
+    ∃ extra, extra.length ≤ 1 ∧ snapshotSends es <:+ (traceWrites pre).map (·.2) ++ extra := by
   obtain ⟨s, hs⟩ := accept_sound P hidden evs h
   have he' : evs = (pre ++ [(tm, Ev.snapshot es)]) ++ rest := by rw [he]; simp
   obtain ⟨s1, hs1⟩ := hs.prefix _ _ he'
@@ -138,8 +138,8 @@ theorem Tie_C20_observed_snapshot (P : Params) (hidden : List String) (evs : Lis
   refine ⟨ring_length _ _, ?_⟩
   obtain ⟨extra, hex, hlen⟩ := sends_faithful P s0 hpre.reachable
   refine ⟨extra, hlen, ?_⟩
-  have hsuf : sendsOf (logRing P s0) <:+ logSends s0 := by
-    unfold sendsOf logSends logRing
+  have hsuf : snapshotSends (logRing P s0) <:+ logSends s0 := by
+    unfold snapshotSends logSends logRing
     exact (ring_suffix _ _).filterMap _
   have hwt : wireTexts s0 = (traceWrites pre).map (·.2) := by
     rw [hpre.writes hw]; simp [wireTexts, wireTT, Function.comp_def]
